@@ -24,6 +24,17 @@ Theorem C06_conn_own_response : forall ls s,
 Proof. exact conn_own_response. Qed.
 Print Assumptions C06_conn_own_response.
 
+(* Giving up on a response also releases the read lock handed over by waitResponse: after the
+   abandoning step nobody holds rlock, so no other waiter stays parked on it (its LockR is
+   enabled) and, the connection being closed, its peek fails (harness op muxcut, monitor
+   mon_conn_cut). *)
+Theorem C06_conn_fatal_releases_lock : forall s t s',
+  (step s (ReadDone t RFatal) = Some s' \/ step s (BatchClose t RFatal) = Some s' \/
+   step s (Deadline t) = Some s' \/ step s (PeekFail t) = Some s') ->
+  rlock s' = None /\ closed s' = true.
+Proof. exact fatal_releases_lock. Qed.
+Print Assumptions C06_conn_fatal_releases_lock.
+
 (* The same without any bound on the number of requests the connection carries: it is enough
    that, in every state the run visits, any two OUTSTANDING requests (waiting for their answer,
    or answered and not yet consumed) are fewer than 2^32 sends apart.  (A bound on the NUMBER of
